@@ -158,21 +158,7 @@ func runCLI(s scenario, x cliShape, dir string, dry, only, reference bool) (obse
 	app := rcmd.MakeApp(context.Background(), components)
 	app.SetArgs(args)
 	app.SilenceUsage, app.SilenceErrors = true, true
-	res := observed{calls: c, signer: signer, vcss: vcss}
-	before := fsSnapshot(dir)
-	res.stdout = captureStdout(func() {
-		defer func() {
-			if r := recover(); r != nil {
-				res.pan = r
-			}
-		}()
-		res.err = app.Execute()
-	})
-	res.fsDiff = fsDiff(before, fsSnapshot(dir))
-	if signer.probe && res.pan == nil && len(signer.atSign) == 0 && runCtx != nil {
-		res.afterRun, res.afterRunErr = goldenOf(runCtx)
-	}
-	return res, args
+	return observe(dir, c, signer, vcss, app.Execute, func() context.Context { return runCtx }), args
 }
 
 const cliRule = "the `endorse` command (cmd.MakeApp with local storage, fresh tree per run) over a generated firmware file, with the request spelled as flags: --add_snp/--add_tdx, --snp_launch_vmsas, --snp_product, --tdx_machine_shapes, --tdx_include_early_accept, --svsm_snp_measurement_path, --svsm_path, --snapshot_dir, --candidate_name, --overwrite, and optionally --snp_image_id, --snp_family_id, --commit, --release_branch, --commit_retries, --timestamp, --quiet; --dry_run / --measurement_only in bare, =true and (when off) absent or =false forms; destinations, pre-existing endorsements, doubles (installed through the Global or the Endorse component), scratch directory and oracle exactly as in flags-vs-real-run, the reference being the same command line without the two mode flags and with --overwrite. Non-trivial and distinct as there"
